@@ -12,8 +12,9 @@ Section AllocStruct.
 Variable c : cfg.
 Variable P : pstate -> list nat -> Prop.
 
-Hypothesis P_frame : forall s s' fr,
-  td s' = td s -> wd s' = wd s -> fd s' = fd s -> P s fr -> P s' fr.
+(* the placement block of a task keeps P (for instance because P does not
+   look at the placement records, see allocate_induction below) *)
+Hypothesis P_place : forall s moved t fr, P s fr -> P (fst (place_for c s moved t)) fr.
 Hypothesis P_perm : forall s fr fr', Permutation fr' fr -> P s fr -> P s fr'.
 Hypothesis P_alloc_w : forall s fr t w,
   t < nT c -> In w fr -> has_wskill c w t = true -> w_targets c w t = true ->
@@ -140,10 +141,7 @@ Lemma P_alloc_task acc t : t < nT c ->
 Proof.
   destruct acc as [[s free] moved]. cbn [fst snd]. intros Ht Hnd HP. unfold alloc_task.
   destruct (place_for c s moved t) as [s1 moved1] eqn:Epl.
-  assert (E1 : td s1 = td s) by (change s1 with (fst (s1, moved1)); rewrite <- Epl; apply td_place_for).
-  assert (E2 : wd s1 = wd s) by (change s1 with (fst (s1, moved1)); rewrite <- Epl; apply (pi_place_for c _ wd); reflexivity).
-  assert (E3 : fd s1 = fd s) by (change s1 with (fst (s1, moved1)); rewrite <- Epl; apply (pi_place_for c _ fd); reflexivity).
-  assert (HP1 : P s1 free) by (eapply P_frame; eassumption).
+  assert (HP1 : P s1 free) by (change s1 with (fst (s1, moved1)); rewrite <- Epl; apply P_place; exact HP).
   destruct (t_auto c t) eqn:Ea; cbn [fst snd]; [split; assumption|].
   destruct (t_needfac c t) eqn:Enf.
   - destruct (alloc_with_facility c s1 free t) as [s2 f2] eqn:E. cbn [fst snd].
@@ -152,7 +150,7 @@ Proof.
     pose proof (P_alloc_workers s1 free t Ht Enf Ea Hnd HP1) as R. rewrite E in R. exact R.
 Qed.
 
-Theorem allocate_induction o s :
+Theorem allocate_induction_gen o s :
   NoDup (all_workers c) ->
   P s (filter (fun w => rstate_eqb (rst (wd s w)) RFree) (all_workers c)) ->
   exists fr, P (allocate c o s) fr.
@@ -171,3 +169,25 @@ Proof.
 Qed.
 
 End AllocStruct.
+
+(* the special case of a predicate that ignores the placement records *)
+Theorem allocate_induction (c : cfg) (P : pstate -> list nat -> Prop) :
+  (forall s s' fr, td s' = td s -> wd s' = wd s -> fd s' = fd s -> P s fr -> P s' fr) ->
+  (forall s fr fr', Permutation fr' fr -> P s fr -> P s fr') ->
+  (forall s fr t w, t < nT c -> In w fr -> has_wskill c w t = true -> w_targets c w t = true ->
+     can_add c s t w None = true -> t_needfac c t = false -> t_auto c t = false ->
+     P s fr -> P (do_alloc_w s t w) (filter (fun w' => negb (Nat.eqb w' w)) fr)) ->
+  (forall s fr t w f k p, t < nT c -> t_comp c t = Some k -> pw (cd s k) = Some p -> In f (wp_facs c p) ->
+     rstate_eqb (rst (fd s f)) RFree = true -> has_fskill c f t = true -> f_targets c f t = true ->
+     In w fr -> has_wskill c w t = true -> w_targets c w t = true ->
+     can_add c s t w (Some f) = true -> t_needfac c t = true -> t_auto c t = false ->
+     P s fr -> P (do_alloc_f (do_alloc_w s t w) t f) (filter (fun w' => negb (Nat.eqb w' w)) fr)) ->
+  forall o s, NoDup (all_workers c) ->
+  P s (filter (fun w => rstate_eqb (rst (wd s w)) RFree) (all_workers c)) ->
+  exists fr, P (allocate c o s) fr.
+Proof.
+  intros P_frame P_perm P_w P_f o s. apply (allocate_induction_gen c P); try assumption.
+  intros s0 moved t fr H. apply (P_frame s0); [apply td_place_for| | |exact H].
+  - apply (pi_place_for c _ wd); reflexivity.
+  - apply (pi_place_for c _ fd); reflexivity.
+Qed.
